@@ -24,7 +24,7 @@ for a in ("NLOPT_LN_AUGLAG", "NLOPT_LD_AUGLAG", "NLOPT_LN_AUGLAG_EQ", "NLOPT_LD_
 for a in ("NLOPT_LD_TNEWTON", "NLOPT_LD_TNEWTON_RESTART", "NLOPT_LD_TNEWTON_PRECOND", "NLOPT_LD_TNEWTON_PRECOND_RESTART", "NLOPT_LD_LBFGS", "NLOPT_LD_VAR1", "NLOPT_LD_VAR2"):
     OVERSHOOT[a] = 25                    # Luksan: limits tested once per iteration; a line search makes up to ~20 evaluations
 OVERSHOOT["NLOPT_GN_AGS"] = 2
-OVERSHOOT["NLOPT_GN_CRS2_LM"] = 2
+OVERSHOOT["NLOPT_GN_CRS2_LM"] = 0       # (was 2 before the CRS limit fix c405d08)
 # one batch of samples per iteration (the property allows it): 2 per dimension and selected rectangle
 BATCH = ("NLOPT_GN_ORIG_DIRECT", "NLOPT_GN_ORIG_DIRECT_L")
 
